@@ -8,6 +8,7 @@ mod authz;
 mod grpcauth;
 mod cfgcenter;
 mod codec;
+mod decode;
 mod echoreplay;
 mod logfile;
 mod meta;
@@ -46,6 +47,7 @@ fn main() {
         ("replay", "ownership") => ownership::replay(&args[3..]),
         ("authz", _) => authz::main_authz(&args[2..]),
         ("replay", "meta") => meta::replay(&args[3..]),
+        ("decode", "catalogue") => decode::main_decode(&args[3..]),
         ("node", "run") => node::main_node(&args[3..]),
         ("nsclient", _) => nsclient::main_client(&args[2..]),
         _ => Err(anyhow::anyhow!("unknown command {} {}", args[1], args[2])),
